@@ -226,6 +226,9 @@ func C06(ctx *core.Ctx, r *core.Report) {
 	c06AppendKeepsOrder(ctx, r)
 	r.Count("instances:textual-order-kept(sort calls examined)", textualOrderKept(ctx, r, scopeFuncs(ctx, "meta")))
 	c06EscapeOnlyInDoubleQuotes(ctx, r)
+	c06RefineAppliesToTarget(ctx, r)
+	c06CommentTerminator(ctx, r)
+	c06BuilderStoresVerbatim(ctx, r)
 }
 
 // D6/D7: lexer.keywords[i] spells the i-th kywd token declared after token_semi.
